@@ -107,5 +107,8 @@ contract(f'{CF}::Shot.winds', which='getter', props=('C12', 'C10'),
          params=dict(self=Obj(C.Shot, _winds=ListOf(WINDF, frozen=True))),
          ensures=[('same-number-of-winds', 'len(result) == len(self._winds)'),
                   ('ordered-by-until-distance', 'forall(0, len(result), lambda i: forall(i + 1, len(result), lambda j: '
-                                                'raw(result[i].until_distance) <= raw(result[j].until_distance)))')],
+                                                'raw(result[i].until_distance) <= raw(result[j].until_distance)))'),
+                  ('every-until-distance-is-one-of-the-given-ones',
+                   'forall(0, len(result), lambda i: exists(0, len(self._winds), lambda j: '
+                   'raw(result[i].until_distance) == raw(self._winds[j].until_distance)))')],
          modifies=[], modular=True, result_shape=WTUPLE)
